@@ -100,6 +100,7 @@ struct PartyState {
 	Dev dev;
 	// wire counters (kept for every party: the fault-free reference run measures the alphabet)
 	int events, bcasts, cur_batch;
+	std::string evkind;        // per event: 'u' private send, 'b' start of an own broadcast
 	std::vector<int> ucount;
 	bool fired, crashed;
 	int ins_off;               // sequence number shift after an inserted broadcast, valid in channel ins_id
@@ -240,6 +241,7 @@ inline bool run_world(World &W, Proto &P, uint64_t seed)
 		PartyState &ps = W.ps[from];
 		int ev = ps.events++;
 		int idx = ps.ucount[to]++;
+		ps.evkind += 'u';
 		if (!ps.faulty) return true;
 		const Dev &d = ps.dev;
 		switch (d.kind)
@@ -275,6 +277,7 @@ inline bool run_world(World &W, Proto &P, uint64_t seed)
 		{
 			ps.cur_batch = ps.bcasts++;
 			int ev = ps.events++;
+			ps.evkind += 'b';
 			if (ps.faulty && d.kind == 'C' && ev >= d.a) { ps.fired = true; throw Crash(); }
 		}
 		if (!ps.faulty) return true;
@@ -470,6 +473,7 @@ inline JResult judge_joint(World &W, const std::string &tag, std::vector<JView> 
 			W.viol(tag + "/honest-failed", "honest party " + drv::str(views[a].party) + " ended the protocol with failure although at most t parties deviate (QUAL seen: " + set_str(views[a].qual) + ")");
 			structural_ok = false;
 		}
+	if (!structural_ok) return res;     // nothing was agreed on; the state of a failed run is not judged further
 	for (size_t a = 1; a < views.size(); a++)
 		if (views[a].qual != views[0].qual)
 		{
